@@ -230,11 +230,30 @@ package core
 //@ directive noeffect stateTransition).traceHaltedTopFrame
 //@ directive pure-observer core/vm.StateDB).GetNonce
 
+// preCheck: a message is admitted only at exactly the sender's state nonce (which must not be the
+// last one), within the per-transaction gas cap where one applies, with a fee cap that covers
+// both the tip and the base fee, and only if the block gas pool and the sender's balance
+// cover it; it changes nothing but the pool's reservation.
+//@ directive pure-observer core/vm.StateDB).GetCode
+//@ directive noeffect core/types.ParseDelegation
+//@ directive noeffect crypto/kzg4844.IsValidVersionedHash
+//@ directive noeffect core/vm.CheckMaxInitCodeSize
 //@ func (st *stateTransition) preCheck(rules params.Rules) (err error)
-//@   serves C31
-//@   trusted frame only: preCheck validates the message against the state database, buys gas (buyGas, under contract) and reserves block gas; its body is not yet under contract
+//@   serves C31 C32
+//@   requires st.msg.GasPrice != nil && bigval(st.evm.Context.BlobBaseFee) >= 0 && poolInvA(st.gp)
+//@   requires rules.IsLondon ==> st.msg.GasFeeCap != nil && st.msg.GasTipCap != nil && st.evm.Context.BaseFee != nil
+//@   requires rules.IsCancun && len(st.msg.BlobHashes) > 0 ==> st.msg.BlobGasFeeCap != nil && st.evm.Context.BlobBaseFee != nil
 //@   modifies st.gp.remaining
 //@   mutates
+//@   ensures err == nil && !st.msg.SkipNonceChecks ==> old(observe(GetNonce, st.state, st.msg.From)) == st.msg.Nonce && st.msg.Nonce < 18446744073709551615
+//@   ensures err == nil && !st.msg.SkipTransactionChecks && rules.IsOsaka && !rules.IsAmsterdam ==> st.msg.GasLimit <= 16777216
+//@   ensures err == nil && rules.IsLondon && !(st.evm.Config.NoBaseFee && u256val(st.msg.GasFeeCap) == 0 && u256val(st.msg.GasTipCap) == 0) ==> u256val(st.msg.GasFeeCap) >= u256val(st.msg.GasTipCap) && u256val(st.msg.GasFeeCap) >= bigval(st.evm.Context.BaseFee)
+//@   ensures err == nil && st.msg.BlobHashes != nil ==> st.msg.To != nil && len(st.msg.BlobHashes) > 0 && (rules.IsOsaka ==> len(st.msg.BlobHashes) <= 6)
+//@   ensures err == nil && !rules.IsAmsterdam ==> old(st.gp.remaining) >= st.msg.GasLimit && st.gp.remaining == old(st.gp.remaining) - st.msg.GasLimit
+//@   ensures err == nil && rules.IsAmsterdam ==> st.gp.remaining == old(st.gp.remaining)
+//@   loop 1 "range msg.BlobHashes"
+//@     invariant st.gp.remaining == old(st.gp.remaining)
+//@     invariant 0 - 1 <= rangeindex && rangeindex <= len(st.msg.BlobHashes) - 1
 
 // A frame budget at transaction level: ranged, with 2^40 of head-room in the reservoir for the
 // account-creation refill (AccountCreationSize x CostPerStateByte with CostPerStateByte <= 2^32).
@@ -302,6 +321,9 @@ package core
 //@   requires poolInvA(st.gp) && st.gp.cumulativeUsed + st.msg.GasLimit <= 18446744073709551615
 //@   requires bigval(st.evm.Context.BaseFee) >= 0 && bigval(st.evm.Context.BaseFee) <= u256val(st.msg.GasPrice)
 //@   requires st.msg.GasLimit * u256val(st.msg.GasPrice) < 115792089237316195423570985008687907853269984665640564039457584007913129639936
+//@   requires st.msg.GasFeeCap != nil && st.msg.GasTipCap != nil && bigval(st.evm.Context.BlobBaseFee) >= 0
+//@   requires observe(Rules, st.evm.chainConfig, st.evm.Context.BlockNumber, st.evm.Context.Random != nil, st.evm.Context.Time).IsLondon ==> st.evm.Context.BaseFee != nil
+//@   requires len(st.msg.BlobHashes) > 0 ==> st.msg.BlobGasFeeCap != nil && st.evm.Context.BlobBaseFee != nil
 //@   ensures err == nil ==> res != nil && res.UsedGas <= st.msg.GasLimit && res.MaxUsedGas >= res.UsedGas && res.MaxUsedGas <= st.msg.GasLimit
 //@   atcall AddBalance#1 requires old(observe(Rules, st.evm.chainConfig, st.evm.Context.BlockNumber, st.evm.Context.Random != nil, st.evm.Context.Time).IsLondon) ==> u256val(arg2) == gasUsed * (old(u256val(st.msg.GasPrice)) - old(bigval(st.evm.Context.BaseFee)))
 //@   atcall AddBalance#1 requires !old(observe(Rules, st.evm.chainConfig, st.evm.Context.BlockNumber, st.evm.Context.Random != nil, st.evm.Context.Time).IsLondon) ==> u256val(arg2) == gasUsed * old(u256val(st.msg.GasPrice))
